@@ -311,7 +311,7 @@ void MDSDRV_Data::add_ins_psg(uint16_t id, const Tag& tag)
 				// last value is always the slide target
 				uint8_t val = (length) ? (int)counter : target;
 				// add to duration of previous value if it's the same
-				if((int)counter == last && env_data[last_pos] < 0xf0 && loop_pos != (int)env_data.size())
+				if(val == last && env_data[last_pos] < 0xf0 && loop_pos != (int)env_data.size())
 					env_data[last_pos] += 0x10;
 				else
 				{
